@@ -65,6 +65,42 @@ inductive Body where
   | raise (e : Exc)
 deriving Repr, DecidableEq
 
+/-- The kinds of view callable `DefaultViewMapper` (`viewderivers.py:42-170`) supports. -/
+inductive ViewKind where
+  /-- function / method `(context, request)` (the native, "old-style" two-argument form) -/
+  | fnCR
+  /-- function `(request)` -/
+  | fnR
+  /-- class with `__init__(self, context, request)` and an `attr=` method -/
+  | clsCR
+  /-- class with `__init__(self, context, request)` and `__call__` -/
+  | clsCRcall
+  /-- class with `__init__(self, request)` and an `attr=` method -/
+  | clsR
+  /-- instance with `__call__(self, context, request)` -/
+  | instCR
+  /-- instance with `__call__(self, request)` -/
+  | instR
+deriving Repr, DecidableEq
+
+/-- **the mapper's calling convention**: is the `context` argument of the mapped view `(context, request)` handed on to
+the user's callable (its constructor, for a class)? — `map_class_native` / `map_nonclass_attr` / unwrapped: yes;
+`map_class_requestonly` / `map_nonclass_requestonly`: no (such a view reaches a context only through the request) -/
+def ViewKind.receivesContext : ViewKind → Bool
+  | .fnCR | .clsCR | .clsCRcall | .instCR => true
+  | .fnR | .clsR | .instR => false
+
+/-- is the user's object made anew for every call (`inst = view(context, request)` / `view(request)`)? -/
+def ViewKind.constructsPerCall : ViewKind → Bool
+  | .clsCR | .clsCRcall | .clsR => true
+  | _ => false
+
+/-- what the user's callable gets as its context when the mapped view is called with `mappedContext`.  `earlier` = the
+context an instance of the same class was constructed with earlier in this request (an ordinary view of the class that
+raised): the mapper constructs a new instance for every call, so it plays no role. -/
+def ViewKind.userContext (k : ViewKind) (mappedContext : Nat) (_earlier : Option Nat) : Option Nat :=
+  if k.receivesContext then some mappedContext else none
+
 /-- The `permission=` argument. -/
 inductive Perm where
   | unset
@@ -105,6 +141,8 @@ structure Stmt where
   body : Body
   /-- the body reads / mutates `request.response` (which makes the request create one) before it answers or raises -/
   touch : Bool
+  /-- what kind of callable the statement's `view` (with its `attr`) is -/
+  kind : ViewKind
 deriving Repr, DecidableEq
 
 /-- `register()` of `add_view`: the derived views and the classifier each is registered under, in the code's order -/
@@ -127,6 +165,11 @@ def touchOf (stmts : List Stmt) (t : Nat) : Bool :=
   match stmts.find? (·.tag = t) with
   | some s => s.touch
   | none => false
+
+def kindOf (stmts : List Stmt) (t : Nat) : ViewKind :=
+  match stmts.find? (·.tag = t) with
+  | some s => s.kind
+  | none => .fnCR
 
 /-! ## `request.__dict__` restricted to the attributes the machinery touches; values are object identities -/
 
@@ -171,12 +214,14 @@ deriving Repr, DecidableEq
 
 /-- what the body of an exception view sees when it starts -/
 structure Seen where
-  /-- its `context` argument -/
+  /-- the `context` argument of the mapped view `(context, request)` -/
   context : Nat
   /-- `request.exception`, `request.exc_info` (identified by the exception in it), `'response' in request.__dict__` -/
   exception : Option Nat
   excInfo : Option Nat
   response : Option Nat
+  /-- what the user's callable was handed as its context by the view mapper (`none`: a request-only callable) -/
+  userContext : Option Nat
 deriving Repr, DecidableEq
 
 /-- The exceptions the framework itself raises; identities and resolution orders are data. -/
@@ -221,7 +266,8 @@ def callExcView (w : World) (reg : Registry) (stmts : List Stmt) (r : Request) (
     Dict × Option Seen × Except Exc (Option Resp) :=
   match callView reg clsExc r with
   | .response t =>
-    let seen : Seen := ⟨e.id, dget d "exception", dget d "exc_info", dget d "response"⟩
+    let seen : Seen := ⟨e.id, dget d "exception", dget d "exc_info", dget d "response",
+                        (kindOf stmts t).userContext e.id none⟩
     let d' := if touchOf stmts t then dset d "response" w.viewResponse else d
     match bodyOf stmts t with
     | .respond => (d', some seen, .ok (some (.view t)))
